@@ -109,4 +109,36 @@ PROPS["C12"] = {
     "rule": "trees for k=0..6 (thorough 9), every cap height, widths shorter/longer than a digest, all or sampled positions, 8 negative request classes per position; distinct = distinct request lines",
 }
 
+def judge_c15(d):
+    a, b = d["impl"], d["model"]
+    if "MODEL-SELF-MISMATCH" in b:
+        return None
+    rq = d["request"].split()[1]
+    names = {"fft": "the transform differs from direct evaluation on the subgroup", "ifft": "the inverse transform does not invert the transform",
+             "cosetfft": "coset transform differs from evaluation on the coset", "cosetifft": "coset inverse transform wrong",
+             "lde": "low-degree extension does not preserve the polynomial", "revperm": "reverse_index_bits is not the bit-reversal permutation",
+             "revinplace": "in-place bit reversal is not the bit-reversal permutation", "transpose": "transpose wrong",
+             "eval": "evaluation differs from Horner/sum definition", "polymul": "product differs from schoolbook multiplication",
+             "divrem": "quotient/remainder violate a = q*b + r with deg r < deg b (or division panicked)",
+             "divlin": "division by a linear factor violates q*(X - z) + p(z) = p", "interp": "interpolation differs from the Lagrange interpolant",
+             "zpoly": "zero polynomial on coset differs from (g w^i)^n - 1"}
+    return names.get(rq)
+
+
+PROPS["C15"] = {
+    "lean_modules": ["P2.Props.C15Gen"],
+    "audit_module": "P2.Audit.C15",
+    "harness_prop": "c15",
+    "profile": "release",
+    "judge": judge_c15,
+    "trusted_base": KERNEL_TB + [
+        "modelled, not verified: fft.rs / polynomial/*.rs / interpolation.rs / util bit reversal transcribed by hand (P2/Model/Fft.lean, Poly.lean, BitRev.lean); the driver answers with the O(n^2) definition (sizes <= 2^7) and the round-by-round model, schoolbook product and long division (unique q, r)",
+        "packed (SIMD) butterflies: same scalar semantics assumed, exercised only through the build's default packing (partial)",
+    ],
+    "level_text": "Lean 4: kernel-checked facts on the extracted 6-bit reversal table and index arithmetic (all n_power <= 6 exhaustively, chunked in-place map for lb_n <= 10), executable definitions (DFT by definition, schoolbook product, long division, Lagrange interpolant) against which every fast routine of the real code is compared for all small sizes and sampled larger ones; general theorems (bit reversal for every size, divide_by_linear identity, round invariant) being added",
+    "level_note": "Trusted: Lean kernel, standard axioms, extract.py, hand-written definitions tied by correspondence. Found and repaired two genuine defects of div_rem on this tree (known_findings.jsonl F-C15-1/2).",
+    "assumptions": [],
+    "rule": "fft/ifft/coset/lde for every size 2^0..2^10 (thorough 2^13) with every zero_factor, with/without (larger) root tables; bit reversal out of place and in place for element sizes 8B..16KiB on both sides of the chunking thresholds; polynomial operand kinds empty/zero/constant/dense/leading-zeros/sparse incl. sparse divisors; distinct = distinct request lines",
+}
+
 NOT_CLAIMED = {}
